@@ -39,6 +39,17 @@ theorem keysSince_cons_self (a : String) (L : List String) : keysSince (a :: L) 
 theorem keysSince_cons_ne {a x : String} (h : x ≠ a) (L : List String) : keysSince (x :: L) a = keysSince L a := by
   simp [keysSince, h]
 
+theorem not_mem_keysSince {L : List String} (h : L.Nodup) (a : String) : a ∉ keysSince L a := by
+  induction L with
+  | nil => simp [keysSince]
+  | cons x L ih =>
+    by_cases hx : x = a
+    · subst hx; rw [keysSince_cons_self]; exact (List.nodup_cons.mp h).1
+    · rw [keysSince_cons_ne hx]; exact ih (List.nodup_cons.mp h).2
+
+theorem keysSince_sublist (L : List String) (a : String) : (keysSince L a).Sublist L :=
+  (List.drop_sublist _ _).trans (List.dropWhile_sublist _)
+
 /-- what follows `a` in a sublist follows it in the list -/
 theorem sublist_keysSince {a : String} {l L : List String} (h : (a :: l).Sublist L) : l.Sublist (keysSince L a) := by
   induction L with
@@ -317,5 +328,45 @@ theorem traceOkFrom_model [DecidableEq V] (c : Cfg) (ops : List (Op V)) {d : Lis
   | cons op ops ih =>
     simp only [traceFrom, traceOkFrom, Bool.and_eq_true]
     exact ⟨obsOk_step c hi h op, ih (step_inv c hi op) (step_rel c h op)⟩
+
+/-! ### along a whole history -/
+
+theorem rel_runFrom (c : Cfg) (ops : List (Op V)) {d : List (Entry V)} {s : SpecSt V} (h : Rel d s) :
+    Rel (runFrom c d ops) (specAfter s (traceFrom c d ops)) := by
+  induction ops generalizing d s with
+  | nil => exact h
+  | cons op ops ih => exact ih (step_rel c h op)
+
+theorem specAfter_m (c : Cfg) (ops : List (Op V)) (d : List (Entry V)) (s : SpecSt V) :
+    (specAfter s (traceFrom c d ops)).m = aRun s.m ops := by
+  induction ops generalizing d s with
+  | nil => rfl
+  | cons op ops ih => exact ih _ _
+
+theorem specAfter_to (s : SpecSt V) (obs : List (Obs V)) : (specAfter s obs).to = touchOrderFrom s.to obs := by
+  induction obs generalizing s with
+  | nil => rfl
+  | cons o rest ih => exact ih _
+
+theorem traceFrom_append (c : Cfg) (d : List (Entry V)) (a b : List (Op V)) :
+    traceFrom c d (a ++ b) = traceFrom c d a ++ traceFrom c (runFrom c d a) b := by
+  induction a generalizing d with
+  | nil => rfl
+  | cons op ops ih => simp only [List.cons_append, traceFrom, runFrom, ih]
+
+theorem touchOrderFrom_append (to : List String) (a b : List (Obs V)) :
+    touchOrderFrom to (a ++ b) = touchOrderFrom (touchOrderFrom to a) b := by
+  induction a generalizing to with
+  | nil => rfl
+  | cons o rest ih => exact ih _
+
+/-- the model's dict against the spec bookkeeping of its own history -/
+theorem rel_run (c : Cfg) (ops : List (Op V)) :
+    Rel (run c ops) ⟨latest ops, touchOrder (trace c ops), keys (run c ops)⟩ := by
+  have h := rel_runFrom c ops (rel_init (V := V))
+  have hm := specAfter_m c ops [] (SpecSt.init (V := V))
+  have ht := specAfter_to (SpecSt.init (V := V)) (traceFrom c [] ops)
+  exact ⟨rfl, fun e he => by have := h.bind e he; rw [hm] at this; exact this,
+    by have := h.sub; rw [ht] at this; exact this, by have := h.toNodup; rw [ht] at this; exact this⟩
 
 end Rbacx.Cache
